@@ -165,6 +165,8 @@ type Conn struct {
 	dec     *cfb8
 	rbuf    bytes.Buffer
 	Timeout time.Duration // per read
+	// Tap, if set, observes every packet written (out=true, before the write) and read.
+	Tap func(out bool, p Packet)
 }
 
 // NewConn wraps c; compression disabled, no encryption.
@@ -276,7 +278,11 @@ func (c *Conn) ReadPacket() (Packet, error) {
 		if rd.Err != nil {
 			return Packet{}, rd.Err
 		}
-		return Packet{ID: id, Data: rd.Rest()}, nil
+		pk := Packet{ID: id, Data: rd.Rest()}
+		if c.Tap != nil {
+			c.Tap(false, pk)
+		}
+		return pk, nil
 	}
 }
 
@@ -312,6 +318,9 @@ func (c *Conn) WriteFrame(payload []byte) error {
 
 // WritePacket writes id + data as one frame.
 func (c *Conn) WritePacket(id int, data []byte) error {
+	if c.Tap != nil {
+		c.Tap(true, Packet{ID: id, Data: data})
+	}
 	return c.WriteFrame(append(AppendVarInt(nil, int32(id)), data...))
 }
 
